@@ -89,6 +89,11 @@ func (r *addrsRecord) clean(now time.Time) (chgd bool) {
 	nowUnix := now.Unix()
 	addrsLen := len(r.Addrs)
 
+	if addrsLen == 0 {
+		// the signed peer record does not outlive the peer's last address
+		r.CertifiedRecord = nil
+	}
+
 	if !r.dirty && !r.hasExpiredAddrs(nowUnix) {
 		// record is not dirty, and we have no expired entries to purge.
 		return false
@@ -107,6 +112,11 @@ func (r *addrsRecord) clean(now time.Time) (chgd bool) {
 	}
 
 	r.Addrs = removeExpired(r.Addrs, nowUnix)
+	if len(r.Addrs) == 0 {
+		// ditto when the last address has just expired; it must not come
+		// back when addresses are added later
+		r.CertifiedRecord = nil
+	}
 
 	return r.dirty || len(r.Addrs) != addrsLen
 }
